@@ -495,6 +495,52 @@ func c01Seed(name string) []gts.Sequence {
 
 func c01Eval(c c01Case) (ok bool, sig, detail string) {
 	switch c.Kind {
+	case "writers":
+		// one record through every writer entry point: the GenBank writer and the auto-detecting writer, given the
+		// record as a GenBank value, as a *GenBank pointer, and as a BasicSequence carrying the same fields
+		var base []gts.Sequence
+		for _, s := range c01Seed(c.Seed) {
+			base = append(base, s)
+		}
+		if len(base) == 0 {
+			return true, "", "seed missing"
+		}
+		ref, err, pan := c01Write(base)
+		if err != nil || pan != "" {
+			return false, "write-error", fmt.Sprintf("seed %s: %v %s", c.Seed, err, pan)
+		}
+		for _, ft := range []seqio.FileType{seqio.GenBankFile, seqio.DefaultFile} {
+			for _, shape := range []string{"value", "pointer", "basic"} {
+				var buf bytes.Buffer
+				var werr error
+				if p, msg := engine.Safely(func() {
+					w := seqio.NewWriter(&buf, ft)
+					for _, s := range base {
+						var v gts.Sequence = s
+						switch shape {
+						case "pointer":
+							if gb, ok := s.(seqio.GenBank); ok {
+								v = &gb
+							}
+						case "basic":
+							v = gts.New(s.Info(), s.Features(), s.Bytes())
+						}
+						if _, e := w.WriteSeq(v); e != nil {
+							werr = e
+						}
+					}
+				}); p {
+					return false, "panic", fmt.Sprintf("seed %s written as %s through writer type %v panics: %s", c.Seed, shape, ft, msg)
+				}
+				if werr != nil {
+					return false, "write-error", fmt.Sprintf("seed %s written as %s through writer type %v: %v", c.Seed, shape, ft, werr)
+				}
+				if !bytes.Equal(buf.Bytes(), ref) {
+					return false, "writer-entry-points-differ", fmt.Sprintf("seed %s written as %s through writer type %v differs from the GenBank writer's output: %s", c.Seed, shape, ft, firstDiff(string(ref), buf.String()))
+				}
+			}
+		}
+		return true, "", ""
 	case "subset":
 		// every subset of the optional header blocks present (the others left at their zero value)
 		gb := c01Base()
@@ -862,6 +908,9 @@ func init() {
 						eval(c01Case{Kind: "field", Field: f, Value: v}, 500)
 					}
 				}
+			}
+			for _, sd := range []string{"base", "gen-full", "gen-contig", "gen-both", "NC_001422_part.gb"} {
+				eval(c01Case{Kind: "writers", Seed: sd}, 555)
 			}
 			// every subset of the optional blocks (definition, accession, version, dblink, keywords, source, references,
 			// comments, extra field, contig, feature table, origin)
